@@ -95,4 +95,13 @@ TEXT = {
         "note": COMMON_NOTE + "fmt/regexp-based printing and the ztp/netboot extractors are exercised by the harness only (not modelled).",
         "technique": "Coq proof (totality with explicit Panic/Fuel, decoder-image lemma) + mutation-driven crash search with recover/watchdog + verdict correspondence",
     },
+    "C08": {
+        "text": "A provenance semantics of the Lexer primitives (copying vs view) with the theorem that a value built from copying primitives denotes the same thing under every later "
+                "content of the source buffer; the list of places where a decoder stores its input without copying is extracted from the Go AST on every run and must equal the expected "
+                "list (only the vendor sub-option parser, which is handed a private copy). The deciding runtime part is the overwrite harness on the real code (6 patterns x every option "
+                "type x nesting positions, inputs and outputs).",
+        "note": COMMON_NOTE + "Aliasing is a property of Go memory that a pure model cannot exhibit: the theorem covers the primitive-level contract and the AST-extracted storage sites; "
+                "the runtime behaviour (including output buffers) rests on the harness. tools/gen's syntactic analysis is trusted.",
+        "technique": "Coq proof over a provenance semantics + AST-extracted retention-site tie + overwrite/snapshot harness on the real code",
+    },
 }
